@@ -10,7 +10,7 @@
    the context's groups (From/To = the groups' replica ids, same names, no snapshot / reject /
    reject hint / context, node ids = the two ends of the stream), and frames respect the decoder's
    size limit. *)
-From ZV Require Import Common.Bytes Stream.Consts Stream.Proto Stream.Model Stream.ProofsProto Stream.Proofs Stream.Wf Stream.ProofsWf Stream.ProofsTotal Stream.ProofsConn Stream.Examples.
+From ZV Require Import Common.Bytes Stream.Consts Stream.Proto Stream.Model Stream.ProofsProto Stream.Proofs Stream.Wf Stream.ProofsWf Stream.ProofsTotal Stream.ProofsConn Stream.ProofsCompat Stream.ProofsExtra Stream.Examples.
 Open Scope N_scope.
 
 (* (1) msgappv2: every well-formed sequence, of any number of interleaved raft groups, is read back
@@ -145,6 +145,29 @@ Theorem C16_varint_roundtrip : forall v rest, v < two64 -> varint_dec (varint_en
 Proof. exact varint_rt. Qed.
 Print Assumptions C16_varint_roundtrip.
 
+(* forward compatibility: fields of a later version (numbers 15 .. 2^28-1; varint, fixed64, bytes, fixed32)
+   after a marshalled message are skipped by the `default:` arm: the same message comes out *)
+Theorem C16_forward_compatible : forall m us,
+  msg_ok m = true -> Forall ufield_ok us ->
+  len (msg_marshal m ++ concat (map ufield_enc us)) < two63 ->
+  msg_unmarshal (msg_marshal m ++ concat (map ufield_enc us)) = Ok m.
+Proof. exact msg_forward_compatible. Qed.
+Print Assumptions C16_forward_compatible.
+
+(* the field numbers / wire types (read from the Unmarshal switch) and the tag bytes (read from MarshalTo)
+   that Stream/Consts.v is regenerated with agree *)
+Theorem C16_generated_tags_coherent :
+  forallb (fun '(t, f, w) => (t =? f * 8 + w) && (t <? 128) && ((w =? 0) || (w =? 2))) all_tags = true.
+Proof. exact tags_consistent. Qed.
+Print Assumptions C16_generated_tags_coherent.
+
+(* no two well-formed sequences share their bytes on the wire *)
+Theorem C16_encoding_injective : forall local remote ms1 ms2,
+  v2_seq_ok local remote st0 ms1 = true -> v2_seq_ok local remote st0 ms2 = true ->
+  v2_encode_all st0 ms1 = v2_encode_all st0 ms2 -> ms1 = ms2.
+Proof. exact v2_encoding_injective. Qed.
+Print Assumptions C16_encoding_injective.
+
 Theorem C16_frame_step : forall local remote st m rest,
   v2_msg_ok local remote st m = true ->
   v2_decode local remote st (v2_frame st m ++ rest) = DOk (m, v2_next st m, rest).
@@ -163,6 +186,11 @@ Example C16_ex_seq_frames :
 Proof. vm_compute. reflexivity. Qed.
 Example C16_ex_seq_roundtrip : v2_run 2 1 (v2_encode_all st0 ex_seq) = (ex_seq, DEof).
 Proof. vm_compute. reflexivity. Qed.
+Example C16_ex_forward_compatible :
+  Forall ufield_ok [UVarint 15 300; UBytes 20 [1;2;3]; UFixed64 99 [1;2;3;4;5;6;7;8]; UFixed32 1000 [9;9;9;9]] /\
+  msg_unmarshal (msg_marshal exA1 ++ concat (map ufield_enc
+     [UVarint 15 300; UBytes 20 [1;2;3]; UFixed64 99 [1;2;3;4;5;6;7;8]; UFixed32 1000 [9;9;9;9]])) = Ok exA1.
+Proof. split; [repeat constructor; vm_compute; try reflexivity; intro; discriminate|vm_compute; reflexivity]. Qed.
 Example C16_ex_plain_wf : plain_seq_ok ex_plain = true.
 Proof. vm_compute. reflexivity. Qed.
 Example C16_ex_plain_roundtrip : plain_run (plain_encode_all ex_plain) = (ex_plain, DEof).
